@@ -5,9 +5,9 @@ from __future__ import annotations
 import ast
 from typing import Dict, List, Optional, Set, Tuple
 
-from ..astutil import arg_of, call_name, calls, guards, kwarg, last_attr, stmt_key, txt, walk_local
+from ..astutil import arg_of, call_name, calls, enclosing_loops, guards, kwarg, last_attr, stmt_key, txt, walk_local
 from ..cfg import CFG
-from ..flow import bound_from
+from ..flow import bound_from, facts_nnf, inline_reaching, literals, path_facts
 from ..index import AnalysisError, dotted
 from ..report import Ctx
 
@@ -46,40 +46,71 @@ def _id_writes(func: ast.AST, subject: Optional[str] = None) -> List[ast.Assign]
     return result
 
 
-def _is_generated(value: ast.AST, registry: str) -> bool:
+def _aliases(func: ast.AST, registry: str) -> Set[str]:
+    """ names that denote the registry set inside func: the name itself and plain aliases in either direction """
+    names = {registry}
+    changed = True
+    while changed:
+        changed = False
+        for node in walk_local(func):
+            if isinstance(node, (ast.Assign, ast.AnnAssign)) and node.value is not None:
+                targets = node.targets if isinstance(node, ast.Assign) else [node.target]
+                if len(targets) == 1 and isinstance(targets[0], ast.Name) and isinstance(node.value, ast.Name):
+                    a, b = targets[0].id, node.value.id
+                    if (a in names) != (b in names):
+                        names |= {a, b}
+                        changed = True
+    return names
+
+
+def _is_generated(value: ast.AST, registry: Set[str]) -> bool:
     """ generate_unique_id(<...>, registry, ...) possibly subscripted [0] """
     if isinstance(value, ast.Subscript):
         value = value.value
     return isinstance(value, ast.Call) and call_name(value) == "generate_unique_id" and len(value.args) >= 2 \
-        and txt(value.args[1]) == registry
+        and txt(value.args[1]) in registry
 
 
-def _membership_tests(cfg: CFG, func: ast.AST, subject_text: str, registry: str) -> List[Tuple[int, str]]:
+def _free_literal(expr: ast.AST, truth: bool, registry: Set[str]) -> Optional[str]:
+    """ text of X when the literal says `X not in registry` """
+    if isinstance(expr, ast.Compare) and len(expr.ops) == 1 and txt(expr.comparators[0]) in registry:
+        if (isinstance(expr.ops[0], ast.NotIn) and truth) or (isinstance(expr.ops[0], ast.In) and not truth):
+            return txt(expr.left)
+    return None
+
+
+def _free_at(cfg: CFG, node: ast.AST, registry: Set[str]) -> Set[str]:
+    """ expressions proven absent from the registry on every path to node (stale facts dropped) """
+    out = set()
+    for expr, truth in path_facts(cfg, node, fresh_only=True):
+        text = _free_literal(expr, truth, registry)
+        if text is not None:
+            out.add(text)
+    return out
+
+
+def _membership_tests(cfg: CFG, func: ast.AST, subject_text: str, registry: Set[str]) -> List[Tuple[int, str]]:
     """ (test node, label of the edge on which `subject not in registry` holds) """
     edges = []
-    for node in walk_local(func):
-        if not isinstance(node, ast.If):
+    for node in cfg.nodes:
+        if node.kind != "test" or node.ast is None or not hasattr(node.ast, "test"):
             continue
-        test = node.test
-        conj = test.values if isinstance(test, ast.BoolOp) and isinstance(test.op, ast.And) else [test]
-        for part in conj:
-            if isinstance(part, ast.Compare) and len(part.ops) == 1 and txt(part.comparators[0]) == registry \
-                    and txt(part.left) == subject_text:
-                if isinstance(part.ops[0], ast.NotIn):
-                    edges.append((cfg.n(node), "T"))
-                elif isinstance(part.ops[0], ast.In) and len(conj) == 1:
-                    edges.append((cfg.n(node), "F"))
+        for label, truth in (("T", True), ("F", False)):
+            for expr, pol in literals(node.ast.test, truth):
+                if _free_literal(expr, pol, registry) == subject_text:
+                    edges.append((node.id, label))
     return edges
 
 
-def _check_function(ctx: Ctx, rel: str, qual: str, registry: str) -> None:
-    func = ctx.fn(rel, qual)
+def _check_function(ctx: Ctx, rel: str, qual: str, registry_name: str, func: Optional[ast.AST] = None) -> None:
+    func = func or ctx.fn(rel, qual, inline=True)
     cfg = CFG(func)
+    registry = _aliases(func, registry_name)
     writes = _id_writes(func)
     if not writes:
         raise AnalysisError(f"{qual}: no write to <record>.id found")
     write_nodes = {cfg.n(w) for w in writes}
-    adds = [c for c in calls(func) if txt(c.func) == f"{registry}.add"]
+    adds = [c for c in calls(func) if isinstance(c.func, ast.Attribute) and c.func.attr == "add" and txt(c.func.value) in registry]
     for index, write in enumerate(writes):
         ctx.call_sites += 1
         subject = txt(write.targets[0])
@@ -91,47 +122,11 @@ def _check_function(ctx: Ctx, rel: str, qual: str, registry: str) -> None:
         if _is_generated(value, registry):
             ok, why = True, "value from generate_unique_id(..., registry)"
         elif isinstance(value, ast.Name):
-            name = value.id
-            defs = [d for d in cfg.reaching_defs(name, wn) if d >= 0]
-            all_defs = set(cfg.def_nodes(name))
-            verdicts = []
-            for d in defs:
-                dnode = cfg.nodes[d].ast
-                dval = None
-                if isinstance(dnode, ast.Assign):
-                    dval = dnode.value
-                if dval is not None and _is_generated(dval, registry):
-                    verdicts.append((True, f"{getattr(dnode, 'lineno', 0)}: generated"))
-                    continue
-                # the defining expression itself was tested on the way
-                if dval is not None and any(
-                        pol and any(isinstance(p, ast.Compare) and isinstance(p.ops[0], ast.NotIn) and txt(p.left) == txt(dval)
-                                    and txt(p.comparators[0]) == registry
-                                    for p in (t.values if isinstance(t, ast.BoolOp) and isinstance(t.op, ast.And) else [t]))
-                        for t, pol in guards(dnode, stop=func)):
-                    verdicts.append((True, f"{getattr(dnode, 'lineno', 0)}: defined under `{txt(dval)[:40]} not in {registry}`"))
-                    continue
-                safe = _membership_tests(cfg, func, name, registry)
-                # cut the safe edges: is the write still reachable from this definition (not through another definition)?
-                others = all_defs - {d}
-                still = wn in cfg.reach([d], avoid=others - {wn}, edges_excluded=safe)
-                # but passing *through* a test by its unsafe edge is exactly what we want to detect; reach() with
-                # edges_excluded removes only the safe edges, so `still` means an untested path exists
-                verdicts.append((not still and bool(safe),
-                                 f"{getattr(dnode, 'lineno', 0)}: " + ("membership-tested on every path" if not still and safe
-                                                                       else "reaches the write without a registry test")))
-            ok = bool(verdicts) and all(v for v, _ in verdicts)
-            why = "; ".join(w for _, w in verdicts)
+            ok, why = _name_free(cfg, func, value.id, wn, registry, 0)
         else:
             text = txt(value)
-            tests = []
-            for t, pol in guards(write, stop=func):
-                parts = t.values if isinstance(t, ast.BoolOp) and isinstance(t.op, ast.And) else [t]
-                for p in parts:
-                    if pol and isinstance(p, ast.Compare) and isinstance(p.ops[0], ast.NotIn) and txt(p.left) == text \
-                            and txt(p.comparators[0]) == registry:
-                        tests.append(txt(p))
-            ok, why = bool(tests), (tests[0] if tests else "no registry test on the assigned expression")
+            ok = text in _free_at(cfg, write, registry)
+            why = f"{text} not in registry" if ok else "no registry test on the assigned expression"
         ctx.ob("R16.1", rel, write, qual, thing + " [free]", ok,
                "an id is assigned only if it is proven not to be taken", detail="" if ok else why, form=why)
         # ---- post: registered before exit / next write
@@ -151,59 +146,172 @@ def _check_function(ctx: Ctx, rel: str, qual: str, registry: str) -> None:
         ctx.ob("R16.1", rel, write, qual, thing + " [registered]", missing is None and bool(add_nodes),
                "a newly assigned id is added to the registry on every path before the function returns or assigns again",
                detail=f"unregistered path: {cfg.describe_path(missing)}" if missing else "",
-               form=f"{len(add_nodes)} matching {registry}.add(...) site(s)")
+               form=f"{len(add_nodes)} matching registry.add(...) site(s)")
+
+
+def _name_free(cfg: CFG, func: ast.AST, name: str, at: int, registry: Set[str], depth: int) -> Tuple[bool, str]:
+    """ every definition of `name` reaching node `at` holds a value proven free """
+    defs = [d for d in cfg.reaching_defs(name, at) if d >= 0]
+    all_defs = set(cfg.def_nodes(name))
+    verdicts = []
+    for d in defs:
+        dnode = cfg.nodes[d].ast
+        dval = dnode.value if isinstance(dnode, (ast.Assign, ast.AnnAssign)) else None
+        line = getattr(dnode, "lineno", 0)
+        if dval is not None and _is_generated(dval, registry):
+            verdicts.append((True, f"{line}: generated"))
+            continue
+        # the defining expression itself was tested on the way
+        if dval is not None and txt(dval) in _free_at(cfg, dnode, registry):
+            verdicts.append((True, f"{line}: defined under `{txt(dval)[:40]} not in registry`"))
+            continue
+        safe = _membership_tests(cfg, func, name, registry)
+        # cut the safe edges: is the write still reachable from this definition (not through another definition)?
+        others = all_defs - {d}
+        still = at in cfg.reach([d], avoid=others - {at}, edges_excluded=safe)
+        if not still and safe:
+            verdicts.append((True, f"{line}: membership-tested on every path"))
+            continue
+        # a plain copy of another local that is itself free at the copy
+        if isinstance(dval, ast.Name) and depth < 3:
+            sub_ok, sub_why = _name_free(cfg, func, dval.id, d, registry, depth + 1)
+            verdicts.append((sub_ok, f"{line}: copy of {dval.id} ({sub_why})"))
+            continue
+        verdicts.append((False, f"{line}: reaches the write without a registry test"))
+    return bool(verdicts) and all(v for v, _ in verdicts), "; ".join(w for _, w in verdicts)
+
+
+def _registry_param(ctx: Ctx) -> str:
+    fixer = ctx.fn(RP, "fix_record_name_id")
+    if len(fixer.args.args) < 2:
+        raise AnalysisError("fix_record_name_id: registry parameter not found")
+    return fixer.args.args[1].arg
 
 
 def r16_1(ctx: Ctx) -> None:
-    _check_function(ctx, RP, "fix_record_name_id", "all_record_ids")
-    _check_function(ctx, RP, "pre_process_sequences", "all_record_ids")
+    reg_param = _registry_param(ctx)
+    _check_function(ctx, RP, "fix_record_name_id", reg_param)
     # the registry starts as the set of all ids and every record is passed through the fixer with it
-    func = ctx.fn(RP, "pre_process_sequences")
-    init = [txt(v) for v in bound_from(func, "all_record_ids")]
-    ok = "{seq.id for seq in sequences}" in init
-    ctx.ob("R16.1", RP, func, "pre_process_sequences", "registry initialised", ok,
-           "the registry starts as the set of all input ids", form=str(init))
+    func = ctx.fn(RP, "pre_process_sequences", inline=True)
     fix = [c for c in calls(func) if call_name(c) == "fix_record_name_id"]
-    ok = len(fix) == 1 and txt(fix[0].args[1]) == "all_record_ids"
-    ctx.ob("R16.1", RP, fix[0] if fix else func, "pre_process_sequences", "registry shared", ok,
-           "every record is fixed against the one shared registry", form=txt(fix[0]) if fix else "")
+    if len(fix) != 1 or len(fix[0].args) < 2 or not isinstance(fix[0].args[1], ast.Name):
+        raise AnalysisError("pre_process_sequences: the call fix_record_name_id(record, <registry>, ...) was not found")
+    registry = fix[0].args[1].id
+    _check_function(ctx, RP, "pre_process_sequences", registry, func)
+    param = func.args.args[0].arg
+    inits = [v for name in _aliases(func, registry) for v in bound_from(func, name)]
+    ok = any(isinstance(v, ast.SetComp) and len(v.generators) == 1 and txt(v.generators[0].iter) == param
+             and not v.generators[0].ifs and txt(v.elt) == f"{txt(v.generators[0].target)}.id" for v in inits)
+    ctx.ob("R16.1", RP, func, "pre_process_sequences", "registry initialised", ok,
+           "the registry starts as the set of all input ids", form=str([txt(v)[:60] for v in inits]))
+    loop = [lp for lp in enclosing_loops(fix[0], stop=func) if isinstance(lp, ast.For)]
+    ok = bool(loop) and txt(loop[0].iter) == param and txt(fix[0].args[0]) == txt(loop[0].target)
+    ctx.ob("R16.1", RP, fix[0], "pre_process_sequences", "registry shared", ok,
+           "every record is fixed against the one shared registry", form=txt(fix[0]))
     gen = ctx.fn(RP, "generate_unique_id")
+    gcfg = CFG(gen)
+    existing = _aliases(gen, gen.args.args[1].arg) if len(gen.args.args) > 1 else set()
     loops = [n for n in walk_local(gen) if isinstance(n, ast.While)]
-    ok = len(loops) == 1 and txt(loops[0].test) == "name in existing_ids"
+    ok = False
+    form = ""
+    if len(loops) == 1 and isinstance(loops[0].test, ast.Compare) and len(loops[0].test.ops) == 1 \
+            and isinstance(loops[0].test.ops[0], ast.In) and txt(loops[0].test.comparators[0]) in existing:
+        subject = txt(loops[0].test.left)
+        form = txt(loops[0].test)
+        rets = [r for r in walk_local(gen) if isinstance(r, ast.Return) and r.value is not None]
+        ok = bool(rets)
+        for ret in rets:
+            first = ret.value.elts[0] if isinstance(ret.value, ast.Tuple) and ret.value.elts else ret.value
+            same = txt(first) == subject or txt(inline_reaching(gcfg, ret, first)) == txt(inline_reaching(gcfg, loops[0], loops[0].test.left))
+            # nothing the candidate is built from changes between the loop exit and the return
+            after_loop = cfg_after_loop(gcfg, loops[0])
+            parts = {n.id for n in ast.walk(inline_reaching(gcfg, loops[0], loops[0].test.left)) if isinstance(n, ast.Name)}
+            changed = any(gcfg.defs_at(nid) & parts and gcfg.n(ret) in gcfg.reach([nid]) for nid in after_loop
+                          if gcfg.nodes[nid].ast is not None and not _defines_only(gcfg.nodes[nid].ast, txt(first)))
+            ok = ok and same and not changed
     ctx.ob("R16.1", RP, gen, "generate_unique_id", "loop until free", ok,
-           "generate_unique_id loops until the candidate is not in the given set", form=txt(loops[0].test) if loops else "")
+           "generate_unique_id loops until the candidate is not in the given set and returns that candidate", form=form)
+
+
+def cfg_after_loop(cfg: CFG, loop: ast.AST) -> Set[int]:
+    head = cfg.n(loop)
+    starts = [dst for dst, lab in cfg.succ[head] if lab == "F"]
+    return cfg.reach(starts, include_start=True, avoid=[head])
+
+
+def _defines_only(stmt: ast.AST, name: str) -> bool:
+    return isinstance(stmt, ast.Assign) and len(stmt.targets) == 1 and txt(stmt.targets[0]) == name
+
+
+def _strip_of(expr: ast.AST, charset: str) -> Optional[str]:
+    """ the string expression X when expr removes the characters of `charset` from X:
+        X.replace(c, "") (judged with its guard by the caller) or "".join(c for c in X if c not in charset) """
+    if isinstance(expr, ast.Call) and last_attr(expr) == "replace" and len(expr.args) == 2 \
+            and isinstance(expr.args[1], ast.Constant) and expr.args[1].value == "":
+        return txt(expr.func.value)  # type: ignore[attr-defined]
+    if isinstance(expr, ast.Call) and last_attr(expr) == "join" and isinstance(expr.func, ast.Attribute) \
+            and isinstance(expr.func.value, ast.Constant) and expr.func.value.value == "" and len(expr.args) == 1 \
+            and isinstance(expr.args[0], (ast.GeneratorExp, ast.ListComp)) and len(expr.args[0].generators) == 1:
+        gen = expr.args[0].generators[0]
+        var = txt(gen.target)
+        if txt(expr.args[0].elt) == var and len(gen.ifs) == 1:
+            test = gen.ifs[0]
+            if isinstance(test, ast.Compare) and len(test.ops) == 1 and isinstance(test.ops[0], ast.NotIn) \
+                    and txt(test.left) == var and txt(test.comparators[0]) == charset:
+                return txt(gen.iter)
+    return None
 
 
 def r16_2(ctx: Ctx) -> None:
     qual = "fix_record_name_id"
     func = ctx.fn(RP, qual)
     cfg = CFG(func)
-    module = ctx.repo.mod(RP)
-    sets = [v for v in bound_from(func, "illegal_chars")]
+    registry = _aliases(func, _registry_param(ctx))
+    # the character set: a set("...") of punctuation bound to a local
     chars: Set[str] = set()
-    if len(sets) == 1 and isinstance(sets[0], ast.Call) and call_name(sets[0]) == "set" and isinstance(sets[0].args[0], ast.Constant):
-        chars = set(sets[0].args[0].value)
+    charset_name = ""
+    site: ast.AST = func
+    for node in walk_local(func):
+        if isinstance(node, ast.Assign) and len(node.targets) == 1 and isinstance(node.targets[0], ast.Name) \
+                and isinstance(node.value, ast.Call) and call_name(node.value) in ("set", "frozenset") and node.value.args \
+                and isinstance(node.value.args[0], ast.Constant) and isinstance(node.value.args[0].value, str):
+            charset_name, chars, site = node.targets[0].id, set(node.value.args[0].value), node
     need = set('/ :;,()|"\'*?')
-    ctx.ob("R16.2", RP, sets[0] if sets else func, qual, "illegal character set", need <= chars,
+    ctx.ob("R16.2", RP, site, qual, "illegal character set", bool(charset_name) and need <= chars,
            "the removed characters include the ones unusable in file names and GenBank headers",
            detail=f"missing {sorted(need - chars)}" if need - chars else "", form="".join(sorted(chars)))
-    # the stripping stage: replace(char, "") under `char in illegal_chars`
-    strips = [c for c in calls(func) if last_attr(c) == "replace" and len(c.args) == 2
-              and isinstance(c.args[1], ast.Constant) and c.args[1].value == ""
-              and any("illegal_chars" in txt(t) and pol for t, pol in guards(c, stop=func))]
-    ok = len(strips) >= 2
-    ctx.ob("R16.2", RP, strips[0] if strips else func, qual, "strip stage", ok,
-           "characters of the illegal set are removed from both id and name", form="; ".join(stmt_key(s) for s in strips))
+    # the stripping stage: both the id and the name lose the characters of the set
+    strips = []
+    for call in calls(func):
+        subject = _strip_of(call, charset_name)
+        if subject is None:
+            continue
+        if last_attr(call) == "replace" and not any(
+                truth and isinstance(e, ast.Compare) and isinstance(e.ops[0], ast.In) and txt(e.comparators[0]) == charset_name
+                for e, truth in path_facts(cfg, call)):
+            continue
+        strips.append((call, subject))
+    subjects = set()
+    for call, subject in strips:
+        subjects.add(inline_text(cfg, call, subject))
+        if subject.isidentifier():
+            subjects |= {txt(v) for v in bound_from(func, subject) if v is not call}
+    ok = any(".id" in x for x in subjects) and any(".name" in x for x in subjects)
+    ctx.ob("R16.2", RP, strips[0][0] if strips else func, qual, "strip stage", ok,
+           "characters of the illegal set are removed from both id and name", form="; ".join(sorted(subjects)))
     # the id written at the end derives from the stripped value, and no other id write follows the stage
     writes = _id_writes(func)
-    stage_writes = [w for w in writes if any(
-        isinstance(v, ast.Call) and last_attr(v) == "replace" for name in {n.id for n in ast.walk(w.value) if isinstance(n, ast.Name)}
-        for v in bound_from(func, name)) or (isinstance(w.value, ast.Call) and last_attr(w.value) == "replace")]
+    strip_calls = [c for c, _ in strips]
+
+    def derives_from_strip(name: str) -> bool:
+        return any(v in strip_calls for v in bound_from(func, name))
+    stage_writes = [w for w in writes if w.value in strip_calls
+                    or any(derives_from_strip(n.id) for n in ast.walk(w.value) if isinstance(n, ast.Name))]
     ok = bool(stage_writes)
     if ok:
-        first_strip = min(cfg.n(s) for s in strips) if strips else None
+        first_strip = min(cfg.n(c) for c in strip_calls)
         others = [w for w in writes if w not in stage_writes]
-        late = [w for w in others if first_strip is not None and cfg.n(w) in cfg.reach([first_strip])]
+        late = [w for w in others if cfg.n(w) in cfg.reach([first_strip])]
         ok = not late
     ctx.ob("R16.2", RP, stage_writes[0] if stage_writes else func, qual, "stripping is last", ok,
            "the id is not rewritten by another stage once illegal characters have been removed", form="")
@@ -211,32 +319,42 @@ def r16_2(ctx: Ctx) -> None:
     for w in stage_writes:
         val = w.value
         srcs = bound_from(func, val.id) if isinstance(val, ast.Name) else [val]
-        ok = all((isinstance(v, ast.Call) and last_attr(v) == "replace") or txt(v) == "record.id"
-                 or (isinstance(v, ast.Subscript) and _is_generated(v, "all_record_ids")) or _is_generated(v, "all_record_ids")
+        ok = all(v in strip_calls or txt(v).endswith(".id")
+                 or (isinstance(v, ast.Subscript) and _is_generated(v, registry)) or _is_generated(v, registry)
                  or (isinstance(v, ast.Name) and v.id == getattr(val, "id", None)) for v in srcs) or \
-            any(isinstance(n, ast.Assign) and isinstance(n.targets[0], ast.Tuple) and _is_generated(n.value, "all_record_ids")
+            any(isinstance(n, ast.Assign) and isinstance(n.targets[0], ast.Tuple) and _is_generated(n.value, registry)
                 for n in walk_local(func))
         ctx.ob("R16.2", RP, w, qual, f"stripped value {stmt_key(w)}", ok,
                "the final id is the stripped id or a generated replacement for it", form="; ".join(txt(v)[:50] for v in srcs))
-    _ = module
 
 
-def _bounded(func: ast.AST, write: ast.Assign, limit: int, depth: int = 0) -> Tuple[bool, str]:
+def inline_text(cfg: CFG, at: ast.AST, text: str) -> str:
+    try:
+        expr = ast.parse(text, mode="eval").body
+    except SyntaxError:
+        return text
+    return txt(inline_reaching(cfg, at, expr))
+
+
+def _bounded(cfg: CFG, func: ast.AST, write: ast.Assign, limit: int, depth: int = 0) -> Tuple[bool, str]:
     value = write.value
     if isinstance(value, ast.Name):
         verdicts = []
-        for node in walk_local(func):
-            targets = []
-            if isinstance(node, ast.Assign):
-                for t in node.targets:
-                    targets += [e for e in (t.elts if isinstance(t, ast.Tuple) else [t])]
-                if any(isinstance(t, ast.Name) and t.id == value.id for t in targets):
-                    verdicts.append(_bounded_expr(func, node, node.value, limit))
+        for d in cfg.reaching_defs(value.id, cfg.n(write)):
+            node = cfg.nodes[d].ast if d >= 0 else None
+            if not isinstance(node, ast.Assign):
+                verdicts.append((False, f"{value.id}: not a plain assignment"))
+                continue
+            if isinstance(node.value, ast.Name) and depth < 3:
+                direct = _bounded_expr(cfg, func, node, node.value, limit)
+                verdicts.append(direct if direct[0] else _bounded(cfg, func, node, limit, depth + 1))
+            else:
+                verdicts.append(_bounded_expr(cfg, func, node, node.value, limit))
         return (bool(verdicts) and all(v for v, _ in verdicts), "; ".join(w for _, w in verdicts))
-    return _bounded_expr(func, write, value, limit)
+    return _bounded_expr(cfg, func, write, value, limit)
 
 
-def _bounded_expr(func: ast.AST, stmt: ast.AST, value: ast.AST, limit: int) -> Tuple[bool, str]:
+def _bounded_expr(cfg: CFG, func: ast.AST, stmt: ast.AST, value: ast.AST, limit: int) -> Tuple[bool, str]:
     text = txt(value)
     call = value.value if isinstance(value, ast.Subscript) else value
     if isinstance(call, ast.Call) and call_name(call) == "generate_unique_id":
@@ -244,43 +362,57 @@ def _bounded_expr(func: ast.AST, stmt: ast.AST, value: ast.AST, limit: int) -> T
         if ml is not None:
             if isinstance(ml, ast.Constant) and isinstance(ml.value, int) and 0 < ml.value <= limit:
                 return True, f"generate_unique_id(max_length={ml.value})"
-            if isinstance(ml, ast.IfExp) and isinstance(ml.orelse, ast.Constant) and ml.orelse.value == limit \
-                    and txt(ml.test) in ("allow_long_names",):
-                return True, f"generate_unique_id(max_length={limit} unless long names are allowed)"
+            if isinstance(ml, ast.IfExp):
+                arms = [ml.body, ml.orelse]
+                bounded_arm = [a for a in arms if isinstance(a, ast.Constant) and isinstance(a.value, int) and 0 < a.value <= limit]
+                if len(bounded_arm) == 1 and "allow_long" in txt(ml.test):
+                    return True, f"generate_unique_id(max_length={limit} unless long names are allowed)"
         return False, f"{text[:50]}: no max_length <= {limit}"
-    for t, pol in guards(stmt, stop=func):
-        parts = t.values if isinstance(t, ast.BoolOp) and isinstance(t.op, ast.And) else [t]
-        for p in parts:
-            if pol and isinstance(p, ast.Compare) and len(p.ops) == 1 and isinstance(p.ops[0], (ast.LtE, ast.Lt)) \
-                    and txt(p.left) == f"len({text})" and isinstance(p.comparators[0], ast.Constant) \
-                    and p.comparators[0].value <= limit + (1 if isinstance(p.ops[0], ast.Lt) else 0):
-                return True, f"guarded by {txt(p)}"
+    for expr, truth in path_facts(cfg, stmt, fresh_only=True):
+        if not (isinstance(expr, ast.Compare) and len(expr.ops) == 1 and isinstance(expr.comparators[0], ast.Constant)
+                and isinstance(expr.comparators[0].value, int) and txt(expr.left) == f"len({text})"):
+            continue
+        bound = expr.comparators[0].value
+        op = expr.ops[0]
+        if (truth and isinstance(op, ast.LtE) and bound <= limit) or (truth and isinstance(op, ast.Lt) and bound <= limit + 1) \
+                or (not truth and isinstance(op, ast.Gt) and bound <= limit) or (not truth and isinstance(op, ast.GtE) and bound <= limit + 1):
+            return True, f"guarded by {'' if truth else 'not '}{txt(expr)}"
     return False, f"{text[:50]}: length not bounded by a guard"
 
 
 def r16_3(ctx: Ctx) -> None:
     qual = "fix_record_name_id"
     func = ctx.fn(RP, qual)
-    region = [n for n in walk_local(func) if isinstance(n, ast.If) and "len(record.id) > 16" in txt(n.test)
-              and "allow_long_names" in txt(n.test)]
-    if not region:
-        raise AnalysisError("fix_record_name_id: shortening region `if len(record.id) > 16 and not allow_long_names` not found")
-    writes = [w for w in _id_writes(func) if any(w is n for n in ast.walk(region[0]))]
+    cfg = CFG(func)
+    record = func.args.args[0].arg
+    all_writes = _id_writes(func)
+    # the shortening region: id writes that happen under the fact `len(<record>.id) > 16`
+    writes = []
+    for write in all_writes:
+        for expr, truth in path_facts(cfg, write):
+            if isinstance(expr, ast.Compare) and len(expr.ops) == 1 and txt(expr.left) == f"len({record}.id)" \
+                    and isinstance(expr.comparators[0], ast.Constant) and \
+                    ((truth and isinstance(expr.ops[0], ast.Gt) and expr.comparators[0].value == 16)
+                     or (not truth and isinstance(expr.ops[0], ast.LtE) and expr.comparators[0].value == 16)):
+                writes.append(write)
+                break
     if not writes:
-        raise AnalysisError("fix_record_name_id: no id write inside the shortening region")
+        raise AnalysisError("fix_record_name_id: no id write under `len(record.id) > 16` (the shortening region) found")
     for index, write in enumerate(writes):
-        ok, why = _bounded(func, write, 16)
+        ok, why = _bounded(cfg, func, write, 16)
         ctx.ob("R16.3", RP, write, qual, f"bounded write#{index} {stmt_key(write)}", ok,
                "every id assigned by the shortening path is at most 16 characters long", detail="" if ok else why, form=why)
     # the stripping stage can only shorten or generate with the same bound
-    later = [w for w in _id_writes(func) if w not in writes]
+    later = [w for w in all_writes if w not in writes]
+    charset = next((n.targets[0].id for n in walk_local(func) if isinstance(n, ast.Assign) and isinstance(n.targets[0], ast.Name)
+                    and isinstance(n.value, ast.Call) and call_name(n.value) in ("set", "frozenset")), "")
     for index, write in enumerate(later):
         val = write.value
         srcs = bound_from(func, val.id) if isinstance(val, ast.Name) else [val]
         gens = [n.value for n in walk_local(func) if isinstance(n, ast.Assign) and isinstance(n.targets[0], ast.Tuple)
                 and isinstance(val, ast.Name) and any(isinstance(e, ast.Name) and e.id == val.id for e in n.targets[0].elts)]
-        ok = all(_bounded_expr(func, write, g, 16)[0] for g in gens) and all(
-            (isinstance(v, ast.Call) and last_attr(v) == "replace") or txt(v) == "record.id" for v in srcs)
+        ok = all(_bounded_expr(cfg, func, write, g, 16)[0] for g in gens) and all(
+            _strip_of(v, charset) is not None or txt(v) == f"{record}.id" for v in srcs)
         ctx.ob("R16.3", RP, write, qual, f"later write#{index} {stmt_key(write)}", ok,
                "after shortening, the id only loses characters or is regenerated under the same bound",
                form="; ".join(txt(g)[:70] for g in gens))
@@ -290,19 +422,36 @@ def r16_4(ctx: Ctx) -> None:
     qual = "fix_record_name_id"
     func = ctx.fn(RP, qual)
     cfg = CFG(func)
-    olds = [n for n in walk_local(func) if isinstance(n, ast.Assign) and txt(n.targets[0]) == "old_id" and txt(n.value) == "record.id"]
+    record = func.args.args[0].arg
     writes = _id_writes(func)
-    ok = len(olds) == 1 and all(cfg.dominates(cfg.n(olds[0]), cfg.n(w)) for w in writes)
+    olds = [n for n in walk_local(func) if isinstance(n, ast.Assign) and len(n.targets) == 1 and isinstance(n.targets[0], ast.Name)
+            and txt(n.value) == f"{record}.id" and all(cfg.dominates(cfg.n(n), cfg.n(w)) for w in writes)]
+    ok = len(olds) >= 1
     ctx.ob("R16.4", RP, olds[0] if olds else func, qual, "old id captured first", ok,
-           "the incoming id is captured before any rewrite", form="")
-    finals = [n for n in walk_local(func) if isinstance(n, ast.If) and "old_id != record.id" in txt(n.test)
-              and any(isinstance(s, ast.Assign) and txt(s.targets[0]) == "record.original_id" and txt(s.value) == "old_id" for s in n.body)]
-    ok = len(finals) == 1 and cfg.postdominates(cfg.n(finals[0]), cfg.entry) and \
-        not any(cfg.n(w) in cfg.reach([cfg.n(finals[0])]) for w in writes)
-    ctx.ob("R16.4", RP, finals[0] if finals else func, qual, "original id stored", ok,
+           "the incoming id is captured before any rewrite", form=stmt_key(olds[0]) if olds else "")
+    old_names = {n.targets[0].id for n in olds}
+    stores = [n for n in walk_local(func) if isinstance(n, ast.Assign) and txt(n.targets[0]) == f"{record}.original_id"
+              and txt(n.value) in old_names]
+    ok = len(stores) == 1
+    form = ""
+    if ok:
+        store = stores[0]
+        old = txt(store.value)
+        form_nnf = facts_nnf(path_facts(cfg, store))
+        lits = set(form_nnf[1])
+        changed = {("lit", f"{old} == {record}.id", False), ("lit", f"{record}.id == {old}", False)} & lits
+        unset = {("lit", f"{record}.original_id", False), ("lit", f"{record}.original_id is None", True)} & lits
+        form = str(sorted(str(x) for x in lits))
+        # reached on every normal path up to those two tests, and after the last id write
+        tests = [n for n in cfg.nodes if n.kind == "test" and cfg.dominates(n.id, cfg.n(store)) and n.id != cfg.n(store)
+                 and any(old in txt(e) for e, _ in literals(n.ast.test, True))]  # type: ignore[union-attr]
+        first_test = tests[0].id if tests else cfg.n(store)
+        ok = bool(changed) and bool(unset) and len(lits) == 2 and cfg.postdominates(first_test, cfg.entry) and \
+            not any(cfg.n(w) in cfg.reach([first_test]) for w in writes)
+    ctx.ob("R16.4", RP, stores[0] if stores else func, qual, "original id stored", ok,
            "on every normal path, after the last rewrite, a changed id stores the original (unless one is already stored)",
-           form=txt(finals[0].test) if finals else "")
-    pre = ctx.fn(RP, "pre_process_sequences")
+           form=form)
+    pre = ctx.fn(RP, "pre_process_sequences", inline=True)
     cfg = CFG(pre)
     for write in _id_writes(pre):
         stores = [n for n in walk_local(pre) if isinstance(n, ast.Assign) and txt(n.targets[0]).endswith(".original_id")
@@ -316,6 +465,7 @@ def r16_5(ctx: Ctx) -> None:
     qual = "Record.add_cds_feature"
     func = ctx.fn(REC, qual)
     cfg = CFG(func)
+    gene = func.args.args[1].arg
     mutations = []
     for node in walk_local(func):
         if isinstance(node, ast.Call) and txt(node.func) in ("self._cds_features.insert", "self._link_cds_to_parent"):
@@ -329,23 +479,32 @@ def r16_5(ctx: Ctx) -> None:
     late = [r for r in raises if first is not None and cfg.n(r) in cfg.reach([first])]
     ctx.ob("R16.5", REC, func, qual, "checks before mutation", ok and not late,
            "the record is modified only after every check that can reject the gene", form=f"{len(raises)} raises, {len(mutations)} mutations")
-    dup_loc = [n for n in walk_local(func) if isinstance(n, ast.If) and txt(n.test) == "location_key in self._cds_by_location"
-               and any(isinstance(s, ast.Raise) for s in n.body)]
+    dup_loc = [r for r in raises if any(truth and isinstance(e, ast.Compare) and isinstance(e.ops[0], ast.In)
+                                        and txt(e.comparators[0]) == "self._cds_by_location"
+                                        for e, truth in path_facts(cfg, r))]
     ctx.ob("R16.5", REC, dup_loc[0] if dup_loc else func, qual, "duplicate location rejected", bool(dup_loc),
            "a second gene with the same location is rejected", form="")
-    dup_name = [n for n in walk_local(func) if isinstance(n, ast.If) and txt(n.test) == "cds_feature.get_name() in self._cds_by_name"]
+    # the test `name in self._cds_by_name`: on its true edge every path raises or renames the locus tag with the checksum
+    name_tests = []
+    for node in cfg.nodes:
+        if node.kind != "test" or node.ast is None or not hasattr(node.ast, "test"):
+            continue
+        for label, truth in (("T", True), ("F", False)):
+            for expr, pol in literals(node.ast.test, truth):
+                if isinstance(expr, ast.Compare) and len(expr.ops) == 1 and txt(expr.comparators[0]) == "self._cds_by_name" \
+                        and ((isinstance(expr.ops[0], ast.In) and pol) or (isinstance(expr.ops[0], ast.NotIn) and not pol)) \
+                        and txt(inline_reaching(cfg, expr, expr.left)) == f"{gene}.get_name()":
+                    name_tests.append((node.id, label))
     ok = False
-    if dup_name:
-        node = dup_name[0]
-        # every path through the arm either raises or renames the locus tag with the checksum
-        tn = cfg.n(node)
-        renames = [s for s in walk_local(node) if isinstance(s, ast.Assign) and txt(s.targets[0]) == "cds_feature.locus_tag"]
-        ok = bool(renames) and "_location_checksum(cds_feature)" in "".join(txt(v) for v in bound_from(func, txt(renames[0].value)))
-        starts = [dst for dst, lab in cfg.succ[tn] if lab == "T"]
+    if name_tests:
+        tn, label = name_tests[0]
+        renames = [s for s in walk_local(func) if isinstance(s, ast.Assign) and txt(s.targets[0]) == f"{gene}.locus_tag"]
+        ok = bool(renames) and f"_location_checksum({gene})" in txt(inline_reaching(cfg, renames[0], renames[0].value))
+        starts = [dst for dst, lab in cfg.succ[tn] if lab == label]
         rn = cfg.n(renames[0]) if renames else -1
-        # from the true arm, the first mutation is reachable only through the rename
+        # from the taken-name edge, the first mutation is reachable only through the rename
         ok = ok and first is not None and all(first not in ({s} | cfg.reach([s], avoid=[rn])) for s in starts)
-    ctx.ob("R16.5", REC, dup_name[0] if dup_name else func, qual, "duplicate name renamed or rejected", ok,
+    ctx.ob("R16.5", REC, cfg.nodes[name_tests[0][0]].ast if name_tests else func, qual, "duplicate name renamed or rejected", ok,
            "a gene whose name is taken is either rejected or renamed with its location checksum before being stored", form="")
     san = ctx.fn(CDS, "_sanitise_id_value")
     ok = 'name.replace(char, "_")' in txt(san).replace("'", '"') and "illegal_chars" in txt(san)
